@@ -133,6 +133,7 @@ class Ctx:
                 "key": jsonable(key),
                 "case": jsonable(self.case),
                 "detail": jsonable(detail),
+                "hashseed": int(os.environ.get("PYTHONHASHSEED") or 0) if (os.environ.get("PYTHONHASHSEED") or "0").isdigit() else 0,
             }
         )
 
